@@ -66,7 +66,8 @@ def make(name):
     if name == "Y":
         return TrafficSign(30, [TrafficSignElement(TrafficSignIDGermany.STOP, [])], set(), np.array([3.0, 2.0]))
     if name == "M":
-        return lane(33, 60.0)
+        # a lanelet whose boundaries cross (its polygon is a bow tie, not a simple polygon): accepted by the constructor, so it is an object like any other
+        return Lanelet(np.array([[60.0, 1.0], [70.0, -1.0]]), np.array([[60.0, 0.0], [70.0, 0.0]]), np.array([[60.0, -1.0], [70.0, 1.0]]), 33)
     if name == "Z":
         return TrafficLight(32, np.array([1.0, 2.0]),
                             TrafficLightCycle([TrafficLightCycleElement(TrafficLightState.GREEN, 1)]))
